@@ -100,8 +100,12 @@ Proof.
   intros s w cands c H. unfold pick_next in H.
   assert (Hhd : forall c', hd_error cands = Some c' -> In c' cands).
   { destruct cands; cbn; intros c' Hc; inversion Hc; auto. }
-  destruct (hinted_task s w); [|auto].
-  destruct (find _ cands) eqn:Ef; [|auto]. inversion H; subst. apply find_some in Ef. tauto.
+  destruct (hinted_task s w) as [t|]; [|auto]. cbv zeta in H.
+  set (same := filter (fun '(t', _) => Nat.eqb t t') cands) in *.
+  assert (Hsame : forall c', In c' same -> In c' cands) by (intros c' Hc; unfold same in Hc; apply filter_In in Hc; tauto).
+  destruct (match hinted_retained s w with Some r => find (fun '(_, r') => Nat.eqb r r') same | None => None end) as [c1|] eqn:Ep.
+  - inversion H; subst. destruct (hinted_retained s w); [|discriminate]. apply find_some in Ep. apply Hsame. tauto.
+  - destruct same as [|c2 tl] eqn:Es; [auto|]. inversion H; subst. apply Hsame. left. reflexivity.
 Qed.
 
 (* the worker is handed a task only through the policy, starting at the root
